@@ -1,6 +1,84 @@
-(* Properties_C06.v -- filled from EngineRead / EngineSteps when they land. *)
-From LCDB Require Import Base Engine EngineSpec EngineRead.
+(* Properties_C06.v -- theorems for property C06 (snapshots are immutable views).
+   Statements only; the proofs are in EngineRead.v and EngineTop.v.
+   [snaps] is a multiset of live snapshot sequences: ORelease q removes ONE occurrence,
+   OReopen drops all of them (handles do not survive a close). *)
+From LCDB Require Import Base Engine EngineSpec EngineRead EngineSteps EngineTop.
+Local Open Scope N_scope.
+
 Theorem C06_get_is_newest_visible : forall ucmp, total_order ucmp -> forall s k q,
   inv_b ucmp s = true -> get ucmp s k q = result_of (best ucmp (all_entries s) k q).
 Proof. exact get_correct. Qed.
 Print Assumptions C06_get_is_newest_visible.
+
+(* a snapshot taken in s1 keeps showing what s1 showed, whatever happens afterwards, as
+   long as its sequence stays registered in every intermediate state *)
+Theorem C06_snapshot_frozen : forall ucmp, total_order ucmp -> forall ops1 s1 ops2 s2,
+  run ucmp init_state ops1 = Some s1 ->
+  run ucmp (do_snapshot s1) ops2 = Some s2 ->
+  (forall pre post s', ops2 = pre ++ post -> run ucmp (do_snapshot s1) pre = Some s' ->
+                       In (last_seq s1) (snaps s')) ->
+  forall k, visible (get ucmp s2 k (last_seq s1)) = visible (get ucmp s1 k (last_seq s1)).
+Proof. exact snapshot_frozen. Qed.
+Print Assumptions C06_snapshot_frozen.
+
+(* ... which is the content of the writes that preceded the snapshot *)
+Theorem C06_snapshot_shows_history : forall ucmp, total_order ucmp -> forall ops1 s1 ops2 s2,
+  run ucmp init_state ops1 = Some s1 ->
+  run ucmp (do_snapshot s1) ops2 = Some s2 ->
+  (forall pre post s', ops2 = pre ++ post -> run ucmp (do_snapshot s1) pre = Some s' ->
+                       In (last_seq s1) (snaps s')) ->
+  forall k, visible (get ucmp s2 k (last_seq s1)) = map_after ucmp (written 0 ops1) k.
+Proof. exact snapshot_shows_history. Qed.
+Print Assumptions C06_snapshot_shows_history.
+
+(* syntactic criterion: no reopen, and at most as many releases of that sequence as there
+   were OTHER handles on it when the snapshot was taken *)
+Theorem C06_snapshot_frozen_count : forall ucmp, total_order ucmp -> forall ops1 s1 ops2 s2,
+  run ucmp init_state ops1 = Some s1 ->
+  run ucmp (do_snapshot s1) ops2 = Some s2 ->
+  no_reopen ops2 = true ->
+  (releases (last_seq s1) ops2 <= cnt (last_seq s1) (snaps s1))%nat ->
+  forall k, visible (get ucmp s2 k (last_seq s1)) = visible (get ucmp s1 k (last_seq s1)) /\
+            visible (get ucmp s2 k (last_seq s1)) = map_after ucmp (written 0 ops1) k.
+Proof. exact snapshot_frozen_count. Qed.
+Print Assumptions C06_snapshot_frozen_count.
+
+(* taking or releasing OTHER snapshots does not change what it observes *)
+Theorem C06_other_snapshots_irrelevant : forall ucmp, total_order ucmp -> forall ops1 s1 ops2 s2,
+  run ucmp init_state ops1 = Some s1 ->
+  run ucmp (do_snapshot s1) ops2 = Some s2 ->
+  no_reopen ops2 = true -> releases (last_seq s1) ops2 = O ->
+  forall k, visible (get ucmp s2 k (last_seq s1)) = visible (get ucmp s1 k (last_seq s1)).
+Proof. exact other_snapshots_irrelevant. Qed.
+Print Assumptions C06_other_snapshots_irrelevant.
+
+(* the general step form: from any state satisfying the invariants *)
+Theorem C06_frozen_view : forall ucmp, total_order ucmp -> forall ops s s' q,
+  Inv2 ucmp s -> q <= last_seq s -> run ucmp s ops = Some s' ->
+  (forall pre post t, ops = pre ++ post -> run ucmp s pre = Some t -> In q (snaps t)) ->
+  forall k, view ucmp s' k q = view ucmp s k q.
+Proof. exact frozen_view. Qed.
+Print Assumptions C06_frozen_view.
+
+(* non-vacuity: in the run of EngineTop.Example the snapshot at sequence 2 is held across
+   writes, two flushes, another snapshot taken and released, and a compaction *)
+Theorem C06_example : forall k,
+  run bytes_compare init_state Example.ops1 = Some Example.s1 /\
+  run bytes_compare (do_snapshot Example.s1) Example.ops2 = Some Example.s2 /\
+  visible (get bytes_compare Example.s2 k 2) = visible (get bytes_compare Example.s1 k 2) /\
+  visible (get bytes_compare Example.s2 k 2) = map_after bytes_compare (written 0 Example.ops1) k.
+Proof.
+  intros k. split. exact Example.run1. split. exact Example.run2. exact (Example.c06_instance k).
+Qed.
+Print Assumptions C06_example.
+
+(* the hypothesis cannot be dropped: after its release a compaction drops what only the
+   snapshot could see *)
+Theorem C06_released_snapshot_not_frozen :
+  exists t1 t2,
+    run bytes_compare init_state [OWrite [WPut Example.ka [1]]] = Some t1 /\
+    run bytes_compare (do_snapshot t1) Example.rel_ops = Some t2 /\
+    visible (get bytes_compare t1 Example.ka 1) = Some [1] /\
+    visible (get bytes_compare t2 Example.ka 1) = None.
+Proof. exact Example.released_snapshot_not_frozen. Qed.
+Print Assumptions C06_released_snapshot_not_frozen.
